@@ -95,3 +95,80 @@ Proof.
   intros Hs ->. destruct (settle_hd _ _ _ _ _ _ _ Hs (LH7 cand e) eq_refl) as [H|(w & v & l0 & l1 & nx1 & _ & Hr & Hh)]; [exact H|].
   exfalso. eapply (resume_not7 _ _ _ _ _ _ cand e Hr). destruct (nx_frames nx1); [discriminate|]. injection Hh as ->. left. reflexivity.
 Qed.
+
+(** Every container named in the settled stack was named before. *)
+Lemma settle_cont_origin cf l rest nx l2 stk st f c :
+  settle cf l rest nx l2 stk st -> In f stk -> pc_cont f = Some c ->
+  (exists f0, In f0 rest /\ pc_cont f0 = Some c) \/ (exists f0, In f0 (nx_frames nx) /\ pc_cont f0 = Some c).
+Proof.
+  induction 1 as [l rest p|l rest fs w|l v|l v b post Hb Hne|l v post|l v w rest l' nx l'' stk st Hb Hr Hs IH];
+    intros Hin Hc; try (destruct Hin; fail).
+  - destruct Hin as [<-|Hin]; [right; exists p; split; [left; reflexivity|exact Hc]|left; eauto].
+  - cbn [nx_frames]. apply in_app_or in Hin as [Hin|[<-|Hin]].
+    + right. exists f. split; [apply in_or_app; left; exact Hin|exact Hc].
+    + right. exists w. split; [apply in_or_app; right; left; reflexivity|exact Hc].
+    + left. eauto.
+  - left. destruct (IH Hin Hc) as [(f0 & H1 & H2)|(f0 & H1 & H2)].
+    + exists f0. split; [right; exact H1|exact H2].
+    + exists w. split; [left; reflexivity|]. eapply resume_cont; eassumption.
+Qed.
+
+Lemma settle_help_in cf l rest nx l2 stk st f :
+  settle cf l rest nx l2 stk st -> In f stk -> is_help f = true -> In f rest \/ In f (nx_frames nx).
+Proof.
+  induction 1 as [l rest p|l rest fs w|l v|l v b post Hb Hne|l v post|l v w rest l' nx l'' stk st Hb Hr Hs IH];
+    intros Hin Hh; try (destruct Hin; fail).
+  - destruct Hin as [<-|Hin]; [right; left; reflexivity|left; exact Hin].
+  - cbn [nx_frames]. apply in_app_or in Hin as [Hin|[<-|Hin]].
+    + right. apply in_or_app. left. exact Hin.
+    + right. apply in_or_app. right. left. reflexivity.
+    + left. exact Hin.
+  - left. destruct (IH Hin Hh) as [H|H]; [right; exact H|].
+    exfalso. pose proof (resume_hfree _ _ _ _ _ _ Hr) as Hf.
+    clear -H Hh Hf. induction (nx_frames nx) as [|q fs IHf]; [destruct H|].
+    cbn in Hf. apply andb_prop in Hf as [H1 H2]. destruct H as [<-|H]; [rewrite Hh in H1; discriminate|auto].
+Qed.
+
+Lemma settle_last cf l rest nx l2 stk st b :
+  settle cf l rest nx l2 stk st -> (exists pre, rest = pre ++ [b]) -> is_bottom_frame b = true ->
+  stk = [] \/ exists pre', stk = pre' ++ [b].
+Proof.
+  induction 1 as [l rest p|l rest fs w|l v|l v b0 post Hb Hne|l v post|l v w rest l' nx l'' stk st Hb Hr Hs IH];
+    intros (pre & Hp) Hbb; auto.
+  - right. exists (p :: pre). rewrite Hp. reflexivity.
+  - right. exists (fs ++ w :: pre). rewrite Hp, <- app_assoc. reflexivity.
+  - apply IH; [|exact Hbb]. destruct pre as [|q pre]; [injection Hp as -> ->; congruence|].
+    injection Hp as -> ->. eauto.
+Qed.
+
+(** ** Completion of a load command: the value handed to the bottom frame *)
+Lemma unwind_ld cf P : forall rest l rv, ZI true P rest -> rvok P rv -> bl rest ->
+  match unwind cf l rest rv with
+  | UDone l' dst rv' =>
+      rvok P rv' /\ forall h, (exists pre, rest = pre ++ [KDone (Some h)]) -> dst = Some (h, handle_of rv')
+  | _ => True
+  end.
+Proof.
+  induction rest as [|w rest IH]; intros l rv HZ Hv Hbl.
+  - cbn. split; [exact Hv|]. intros h (pre & Hp). destruct pre; discriminate.
+  - assert (Hlast : forall h, (exists pre, w :: rest = pre ++ [KDone (Some h)]) -> is_bottom_frame w = false ->
+                              exists pre', rest = pre' ++ [KDone (Some h)]).
+    { intros h (pre & Hp) Hnb. destruct pre as [|q pre]; [injection Hp as -> ->; discriminate|].
+      injection Hp as -> ->. eauto. }
+    destruct Hbl as [Hb1 Hbl]. cbn [ZI] in HZ.
+    destruct (is_help w) eqn:Hh; [destruct HZ; discriminate|].
+    destruct (is_kdone w) eqn:Hk.
+    + destruct w; try discriminate Hk. cbn. split; [exact Hv|]. intros h (pre & Hp).
+      rewrite (Hb1 eq_refl) in Hp. destruct pre as [|q pre]; [injection Hp as ->; reflexivity|].
+      injection Hp as _ Hp. destruct pre; discriminate.
+    + destruct HZ as [Hw HZ]. destruct (Hw (or_introl eq_refl)) as [Hlw Hvw].
+      pose proof (resume_lfv P cf l w rv) as Hres.
+      pose proof (lfr_not_bottom _ Hlw) as Hnb.
+      destruct w; try discriminate Hlw; try discriminate Hnb; cbn [unwind].
+      all: match goal with |- context [resume ?cf0 ?l0 ?w0 ?v0] =>
+             destruct (resume cf0 l0 w0 v0) as [l' nx] eqn:Hr end.
+      all: destruct (Hres l' nx eq_refl Hlw Hvw Hv) as [_ Hrv].
+      all: destruct nx as [p'|fs w'|v'|ps|f]; try exact I.
+      all: specialize (IH l' v' HZ (Hrv v' eq_refl) Hbl); destruct (unwind cf l' rest v'); try exact I.
+      all: destruct IH as [I1 I2]; split; [exact I1|]; intros h Hp; apply I2; apply (Hlast h Hp); reflexivity.
+Qed.
